@@ -735,8 +735,10 @@ def generate_ofm_scaling_for_pooling(emit: CommandStreamEmitter, pool_op: NpuPoo
         # kernel height == kernel width == 1 is always true in this case
         # Normally the scale is maximised, to get maximum precision, which means that
         # if rescale != 1, scale need to consider the number of bits needed for rescaling
-        if ofm_quant.scale_f32 is not None and ifm_quant.scale_f32 is not None:
-            rescale = ifm_quant.scale_f32 / ofm_quant.scale_f32
+        ifm_scale = ifm_quant.scale_f32 if ifm_quant else None
+        ofm_scale = ofm_quant.scale_f32 if ofm_quant else None
+        if ofm_scale is not None and ifm_scale is not None:
+            rescale = ifm_scale / ofm_scale
             rescale_bits = 0
             if kernel.height == kernel.width == 1:
                 if rescale > 1:
